@@ -200,6 +200,10 @@ def cases(tier, seed):
                              mode=mode, cons=cons, options=opts, sigma=float(10 ** rng.uniform(-2, 0.7)),
                              max_fun_evals=int(rng.choice([80, 120, 160, 200])))
         out.append({"kind": "run", "spec": spec})
+    for j_ in range(len(out)):
+        c_ = out[j_]
+        if c_.get("kind") == "run" and j_ % 7 == 3 and isinstance(c_["spec"]["options"].get("random_seed"), int):
+            c_["spec"]["seed_spelling"] = ["npint64", "npint32", "0d", "float"][(j_ // 7) % 4]
     out += C.option_variation_slice("C19", tier, seed, kind="run")
     return out
 
